@@ -50,7 +50,9 @@ def combos(ctx, rnd):
         if not (fl & E):
             finc = tuple(p for p in finc if '(' not in p)
         cases.append((finc, fexc, dinc, dexc, fl))
-    # the shapes the statement names explicitly
+    # the shapes the statement names explicitly (these run on a fixed set of templates that contain the names they use, also in quick:
+    # what they catch must not depend on the seed)
+    n_random = len(cases)
     cases += [((), ('*.bak', 'x'), (), (), R | FP), ((), ('x',), (), (), R | FP | H), ((), ('x',), ('a',), (), R), (('*',), (), ('d',), (), R), (('*',), (), ('d',), (), R | H),
               (('*',), (), ('.*',), (), R | H), (('*',), (), (), (), R), (('*',), (), (), (), R | SY | H), ((), (), (), (), R | H), (('x',), (), ('**/d/',), (), R | DP | GS | H),
               (('**/x',), (), (), (), R | FP | GS), (('x',), (), (), (), R | FP | MB), (('*',), (), ('d',), (), R | DP | MB), (('*',), (), ('q',), (), R | DP | MB | H),
@@ -63,8 +65,9 @@ def combos(ctx, rnd):
     # folder patterns written as directories (trailing separator) under DIRPATHNAME
     cases += [(('*',), (), ('a/',), (), R | DP), (('*',), (), ('*/',), (), R | DP | H), (('*',), (), ('**/d/',), (), R | DP | GS), (('*',), (), ('d/*/',), ('d/d/',), R | DP),
               (('*',), (), ('a/',), (), R | DP | FP), (('*',), (), ('d/',), (), R)]
+    fixed = ['nest', 'same', 'hid2', 'link1', 'flat', 'dirsonly', 'linkfile']
     for k, c in enumerate(cases):
-        ts = names if not ctx.quick else [names[(k + j) % len(names)] for j in range(3)]
+        ts = names if not ctx.quick else ([names[(k + j) % len(names)] for j in range(3)] if k < n_random else fixed)
         for t in ts:
             out.append(('c14', t, c))
     return out
